@@ -183,7 +183,11 @@ theorem PhaseOk.step {cfg : Cfg} {ph : Phase} (h : PhaseOk cfg ph) (r : Resp) :
   | b1 st cur =>
     obtain ⟨hinv, hcur⟩ := h
     cases ha : r.block1 with
-    | none => rw [step_b1_none ha]; exact PhaseOk.completeBlock2 cfg cur r
+    | none =>
+      rw [step_b1_none ha]
+      split
+      · simp [PhaseOk]
+      · exact PhaseOk.completeBlock2 cfg cur r
     | some a =>
       rw [step_b1_some ha]
       by_cases hnum : a.num ≠ (sentBlock1 st cur).num
@@ -220,6 +224,9 @@ theorem PhaseOk.step {cfg : Cfg} {ph : Phase} (h : PhaseOk cfg ph) (r : Resp) :
     | none => rw [step_b2_none hb]; simp [PhaseOk]
     | some b2 =>
       rw [step_b2_some hb]
+      by_cases hg : szxGrows cur b2 = true
+      · simp [hg, PhaseOk]
+      rw [if_neg hg]
       by_cases hc : r.code ≠ a.code
       · simp [hc, PhaseOk]
       rw [if_neg hc]
